@@ -472,11 +472,22 @@ func ubjsonHighPrec(h *rt.H) {
 	enc := structform.EnsureExtVisitor(ubjsonCodec.newVisitor(out))
 	big := highPrecSet[h.Choose("big", 0, len(highPrecSet)-1)]
 	small := smallSet[h.Choose("small", 0, len(smallSet)-1)]
-	shape := h.Choose("shape", 0, 4)
+	shape := h.Choose("shape", 0, 7)
 	var err error
 	var want []ev.Event
 	str := func(u uint64) ev.Event { return ev.Event{K: ev.String, Str: decimal(u)} }
+	// elements of every width class before and after the one above MaxInt64
+	mid := []uint64{200, 40000, 1 << 20, 1 << 40, 1<<63 - 1}[h.Choose("mid", 0, 4)]
 	switch shape {
+	case 5:
+		err = enc.OnUint64Array([]uint64{mid, big, small})
+		want = []ev.Event{{K: ev.ArrStart}, str(mid), str(big), str(small), {K: ev.ArrEnd}}
+	case 6:
+		err = enc.OnUint64Array([]uint64{small, mid, big})
+		want = []ev.Event{{K: ev.ArrStart}, str(small), str(mid), str(big), {K: ev.ArrEnd}}
+	case 7:
+		err = enc.OnUintArray([]uint{uint(mid), uint(big)})
+		want = []ev.Event{{K: ev.ArrStart}, str(mid), str(big), {K: ev.ArrEnd}}
 	case 0:
 		err = enc.OnUint64(big)
 		want = []ev.Event{str(big)}
